@@ -1,4 +1,5 @@
 """C05 - every well-formed statement row becomes exactly one transaction, faithfully."""
+from engine.ob import REPO_SRC  # noqa: E402
 from engine.ob import Obligation, post, reset_tally_caches
 
 LEVEL = 'other'
@@ -344,7 +345,7 @@ def parse_amount_real():
         def query(self):
             import math
             import sys
-            sys.path.insert(0, '/repo/src')
+            sys.path.insert(0, REPO_SRC)
             from tally.parsers import parse_amount
             bad = None
             for c in self.CASES:
@@ -361,7 +362,7 @@ def parse_amount_real():
         def __call__(self, text):
             import math
             import sys
-            sys.path.insert(0, '/repo/src')
+            sys.path.insert(0, REPO_SRC)
             from tally.parsers import parse_amount
             try:
                 v = parse_amount(text)
